@@ -343,15 +343,19 @@ namespace sim
 	void http_proxy::on_server_write(error_code const& ec, size_t bytes_transferred)
 	{
 		m_writing_to_server = false;
-		// the connection this operation belonged to has been closed, and the
-		// next client may be using the sockets already
-		if (ec == asio::error::operation_aborted) return;
+		// the connection this operation belonged to has been closed (a completion
+		// that was already queued then arrives with whatever it completed with),
+		// and the next client may be using the sockets already
+		if (m_accepting || ec == asio::error::operation_aborted) return;
 
 		if (ec)
 		{
 			std::printf("http_proxy::on_server_write: (%d) %s\n"
 				, ec.value(), ec.message().c_str());
-			close_connection();
+			// the origin does not take any more requests. What it has sent is
+			// still being relayed; the read side closes the connection when
+			// that is done
+			m_num_server_out_bytes = 0;
 			return;
 		}
 
